@@ -702,7 +702,7 @@ def case(ctx, rng, idx, state):
 if __name__ == "__main__":
     harness.main(
         PROP, "exploration", case, setup_fn=setup,
-        tiers=dict(quick=dict(cases=192, shards=8, time=150), thorough=dict(cases=4000, shards=16, time=900)),
+        tiers=dict(quick=dict(cases=192, shards=8, time=900), thorough=dict(cases=4000, shards=16, time=3000)),
         rule="node lists of 2-6 nodes (random / high-symmetry / revisited / shifted by G, list or array) with leading, "
              "single and double None breaks, labels given or default, nk int / nk list|tuple|array / dk / length "
              "(incl. dk dividing a segment exactly and dk longer than every segment), lattices random or Bravais given "
